@@ -306,6 +306,10 @@ def replay(ctx, path):
         record_and_judge(ctx, binary, d["ntraces"], d["mindepth"], d["maxdepth"], d["seed"], "replay")
     else:
         raise vlib.Infra("violation file has no replayable detail")
+    # one stored program (one state of the ScalarMachine graph) was re-executed
+    ctx.states = max(ctx.states, 1)
+    ctx.transitions = max(ctx.transitions, 1)
+    ctx.traces = max(ctx.traces, 1)
     return ctx.finish(rule="replay of one recorded violation", evaluations=1, distinct_nontrivial=1)
 
 
